@@ -410,7 +410,13 @@ def run(cr: CheckRun) -> None:
     cr.cov["distinct_nontrivial"] = len({json.dumps(b, sort_keys=True) for b in items + sitems + rnd})
     cr.cov["rule"] = "distinct read/write sequences in the LCD windows executed on both implementations; plus 8192 VRAM bits probed per pixel map"
     cr.cov["exhaustive"] = False
-    cr.cov["trusted_base"] = ["vh harness (lcd.rs)", "TLC", "lib/vlib.py"]
+    # growth beyond the HD61202 pair: the display TEXT decoders of both implementations as a refinement layer over PixelMap
+    # (LcdText.tla) and the second device profile's display (Iq7000Lcd.tla); only C15's "a single data write changes at most the
+    # eight pixels of one display column" is a verdict there (key ColumnsPerWrite:...), the rest is drift
+    from checks import ext_lcdtext
+    ext_lcdtext.campaign(cr, quick)
+    cr.mark("text decoder + IQ-7000 display (LcdText, Iq7000Lcd)")
+    cr.cov["trusted_base"] = ["vh harness (lcd.rs, lcdtext.rs, iqlcd.rs)", "TLC", "lib/vlib.py"]
     cr.assumptions += [
         "addresses are restricted to the LCD windows 0x2000-0x2FFF / 0xA000-0xAFFF (the property's quantifier); the Rust handles() gate is applied as the runtime bus does",
         "busy is observable on the Rust side only through status reads",
